@@ -13,4 +13,8 @@ def run(ctx):
         ls += lemmas_stage2.p3_lemmas(ctx.tier, wf_only=True)
     except ImportError:
         ctx.assume("parser side (tape of an accepted document is well-formed) pending: only the Deserialize side is decided in this run")
+    # which buffer a string entry names is the documented function of the string mode; that the mode is the one this call's
+    # options select (and not a leftover of the reused object) is lemma U2
+    from . import C16
+    ls.append(C16.u2_lemma())
     run_lemmas(ctx, ls)
